@@ -4,7 +4,8 @@ import math
 
 RULE = ("random target spaces S (degree 0..3, non-uniform knots, repeated knots) and source spline curves C (degree 0..3, other knot vectors, "
         "scalar/vector points) on the same interval; C inside S (S refines C's space); interpolation node sets (subsets of S's knots, <= npts).  "
-        "Non-trivial: non-uniform or multi-span S; distinct = distinct (S, C, nodes).")
+        "Non-trivial: non-uniform or multi-span S; distinct = distinct (S, C, nodes)."
+        " Also: the float twin of every case (numpy solves, Chebyshev quadrature) against the exact projection.")
 EXPLANATION = ("L3: with the implementation's D the exact integrals <C-D, N_i> (all basis functions of S) are computed from the span polynomials "
                "(`rf.inner`), as are integral(C-D)^2 (`rf.sqdist`); orthogonality, error identity (factor 1 or 1/2), non-negativity, zero-iff and "
                "reproduction are exact comparisons; with nodes: D(z)=C(z) and the moment vector lies in the row space of the constraint matrix "
